@@ -20,7 +20,7 @@ def gen_typed_case(rng):
     n = rng.choice([2, 3, 4, 6])
     coltypes = [rng.choice(['int', 'int', 'real', 'bool', 'text', 'mixednum']) for _ in range(3)]
     if kind in ('sqltable', 'sqlquery'):
-        coltypes = ['int' if t == 'bool' else t for t in coltypes]     # SQLite stores booleans as integers
+        coltypes = [{'bool': 'int', 'mixednum': 'real'}.get(t, t) for t in coltypes]     # SQLite stores booleans as integers; NUMERIC affinity rewrites values
     def val(t):
         if rng.random() < 0.2:
             return None
@@ -41,6 +41,22 @@ def gen_typed_case(rng):
              'objs': [rng.choice([{'m': tm('ref', c), 'lang': None, 'dt': None, 'joins': []},
                                   {'m': tm('templ', EX + 'o/{' + c + '}'), 'lang': None, 'dt': None, 'joins': []}])], 'graphs': []}
             for i, c in enumerate(['c1', 'c2', 'c3'])]
+    return {'cfg': {'nquads': False, 'mode': 'NO'}, 'sources': [src],
+            'doc': [{'id': EX + 'tm/T', 'src': 'S0', 'nonasserted': False, 'subj': tm('templ', EX + 'r/{id}'), 'sjoins': [], 'classes': [], 'sgraphs': [], 'poms': poms}]}
+
+
+def gen_canon_case(rng):
+    """string columns under a datatype whose lexical forms are canonicalised (xsd:integer / boolean / dateTime): the
+    canonical form of a value must not depend on the other rows of the column"""
+    dt, vals = rng.choice([(mapcase.XSD + 'integer', ['0042', '1e3', '1500.0', '7', '12', '3.0', '+5', '10', '-0', '1E2']),
+                           (mapcase.XSD + 'boolean', ['true', 'TRUE', 'False', '1', '0', 'T']),
+                           (mapcase.XSD + 'dateTime', ['2020-01-01 10:00:00', '2020-01-01T10:00:00', '2021-05-05 00:00:00.5', '2020-01-01'])])
+    n = rng.choice([2, 3, 4, 5])
+    rows = [[str(i + 1), rng.choice(vals), rng.choice(vals)] for i in range(n)]
+    kind = rng.choice(['csv', 'csv', 'json', 'sqltable', 'parquet'])
+    src = {'key': 'S0', 'kind': kind, 'cols': ['id', 'c1', 'c2'], 'rows': rows}
+    poms = [{'preds': [tm('const', EX + 'p/p%d' % i)], 'objs': [{'m': m, 'lang': None, 'dt': tm('const', dt), 'joins': []}], 'graphs': []}
+            for i, m in enumerate([tm('ref', 'c1'), rng.choice([tm('ref', 'c2'), tm('templ', '{c2}', 'iri', 'lit')])])]
     return {'cfg': {'nquads': False, 'mode': 'NO'}, 'sources': [src],
             'doc': [{'id': EX + 'tm/T', 'src': 'S0', 'nonasserted': False, 'subj': tm('templ', EX + 'r/{id}'), 'sjoins': [], 'classes': [], 'sgraphs': [], 'poms': poms}]}
 
@@ -85,7 +101,7 @@ def run(ctx, res):
                 'SQLite query, JSON, Parquet, Feather, ORC; for every case the table is split at a random cut, and permuted with duplicated rows: result(whole) must equal result(part 1) + result(part 2) '
                 'and result(permuted + duplicated); typed cases are also compared with the Engine model (column coercion) and the Spec; distinct = distinct case; non-trivial = split with both parts non-empty')
     known = set(ctx.known)
-    cases = [gen_typed_case(ctx.rng) for _ in range(ctx.scale(60, 1500))]
+    cases = [gen_typed_case(ctx.rng) for _ in range(ctx.scale(60, 1500))] + [gen_canon_case(ctx.rng) for _ in range(ctx.scale(30, 600))]
     cases += [c for c in (mapcase.gen_core_case(ctx.rng, hard=ctx.rng.random() < 0.5, joins=False) for _ in range(ctx.scale(40, 1200))) if len(c['sources']) == 1]
     batch = family.Batch(ctx)
     whole = batch.run(cases)
@@ -93,22 +109,27 @@ def run(ctx, res):
         # correspondence with the model / spec (typed reader behaviour)
         if typed_trigger(case) and 'typed-column-coercion' in known:
             res.evaluations += 1
-            if not family.same(rec['impl'], rec['spec']) and (rec['model'][0] == 'unmodelled' or family.same(rec['impl'], rec['model'])):
+            if not family.same(rec['impl'], rec['spec']) and family.same(rec['impl'], rec['model']):
                 res.violations.append({'key': 'typed-column-coercion', 'what': 'recorded finding reproduced', 'replay': case})
                 res.count('finding:typed-column-coercion')
-            elif not family.same(rec['impl'], rec['model']) and rec['model'][0] != 'unmodelled' and not family.same(rec['impl'], rec['spec']):
-                res.count('typed-unmodelled-shape')
+            elif not family.same(rec['impl'], rec['model']) and rec['model'][0] != 'unmodelled':
+                family.judge(res, rec, known)
         else:
             family.judge(res, rec, known)
     todo = []
     for case, rec in zip(cases, whole):
         for name, parts in variants(ctx.rng, case):
-            todo.append((case, rec['impl'], name, parts))
+            todo.append((case, rec, name, parts))
     flat = [p for _, _, _, parts in todo for p in parts]
-    outs = [r['impl'] for r in batch.run(flat, want_spec=False)]
+    precs = batch.run(flat, want_spec=False)
+    outs = [r['impl'] for r in precs]
     k = 0
-    for case, w, name, parts in todo:
+    for case, wrec, name, parts in todo:
+        w = wrec['impl']
         po = outs[k:k + len(parts)]
+        # the recorded finding is attributed only when the Engine model reproduces the implementation on the whole table
+        # and on every part (i.e. the deviation is exactly the modelled column coercion)
+        modelled = family.same(w, wrec['model']) and all(family.same(r['impl'], r['model']) for r in precs[k:k + len(parts)])
         k += len(parts)
         res.evaluations += 1
         if w[0] != 'ok' or any(o[0] != 'ok' for o in po):
@@ -119,7 +140,7 @@ def run(ctx, res):
         if name.startswith('split'):
             res.distinct.add(json.dumps(case, sort_keys=True, ensure_ascii=False))
         if union != w[1]:
-            key = 'typed-column-coercion' if (typed_trigger(case) and 'typed-column-coercion' in known) else None
+            key = 'typed-column-coercion' if (typed_trigger(case) and modelled and 'typed-column-coercion' in known) else None
             res.violations.append({'key': key, 'sig': 'union:' + name.split('@')[0] + ':' + case['sources'][0].get('kind', 'csv'),
                                    'what': '%s: result over the whole table differs from the union over its parts: only whole %r, only parts %r (source kind %s)'
                                            % (name, [x for x in w[1] if x not in union][:3], [x for x in union if x not in w[1]][:3], case['sources'][0].get('kind', 'csv')),
